@@ -327,6 +327,19 @@ func init() {
 		fr.i.path.events = append(fr.i.path.events, fr.i.displayStr(args[0]))
 		return nil
 	}
+	harnessAPI["vBlockCount"] = func(fr *frame, args []value) value { return len(fr.i.lastBlock) }
+	harnessAPI["vBlockDur"] = func(fr *frame, args []value) value {
+		i := int(fr.i.concInt(fr, args[0]))
+		d := fr.i.lastBlock[i].dur
+		if s, ok := d.(*symv); ok {
+			return &symv{s.t, types.Int64}
+		}
+		return asInt64(d)
+	}
+	harnessAPI["vBlockKind"] = func(fr *frame, args []value) value {
+		i := int(fr.i.concInt(fr, args[0]))
+		return fr.i.lastBlock[i].kind
+	}
 	harnessAPI["vFreeze"] = func(fr *frame, args []value) value {
 		fr.i.freeze(args[0])
 		return nil
@@ -499,6 +512,9 @@ func init() {
 
 	// ---- strconv fast paths (concrete arguments only)
 	externals["strconv.FormatFloat"] = func(fr *frame, args []value) value {
+		if r, ok := opaqueInt(fr, args[0]); ok {
+			return r
+		}
 		if !allConcrete(args) {
 			fr.i.abort("unsupported", "float-text: strconv.FormatFloat on a symbolic float (outside claim)")
 		}
@@ -525,11 +541,26 @@ func init() {
 		if allConcrete(args) {
 			return strconv.Itoa(args[0].(int))
 		}
+		if r, ok := opaqueInt(fr, args[0]); ok {
+			return r
+		}
 		return notHandled
 	}
 	externals["strconv.FormatInt"] = func(fr *frame, args []value) value {
 		if allConcrete(args) {
 			return strconv.FormatInt(args[0].(int64), args[1].(int))
+		}
+		if r, ok := opaqueInt(fr, args[0]); ok {
+			return r
+		}
+		return notHandled
+	}
+	externals["strconv.FormatUint"] = func(fr *frame, args []value) value {
+		if allConcrete(args) {
+			return strconv.FormatUint(args[0].(uint64), args[1].(int))
+		}
+		if r, ok := opaqueInt(fr, args[0]); ok {
+			return r
 		}
 		return notHandled
 	}
@@ -851,6 +882,14 @@ func init() {
 		in.chanSeq++
 		return &gchan{id: in.chanSeq, kind: "timer", dur: args[0]}
 	}
+}
+
+func opaqueInt(fr *frame, v value) (value, bool) {
+	if s, ok := v.(*symv); ok && fr.i.path != nil && !fr.i.path.fmtFork {
+		fr.i.path.fmtOpaque++
+		return fmt.Sprintf("<sym:%d>", s.t.id), true
+	}
+	return nil, false
 }
 
 type blockEvent struct {
